@@ -57,7 +57,7 @@ CFG = {
             "only); random insertion order; 3/4 of the cases scaled by 2^-20..2^20, half of those offset up to 2^30 (2^40 for "
             "slivers) with the metamorphic oracle 'same triangle set as unscaled'; distinct by (points, scale, offset, spare capacity); "
             "the slice handed to BowyerWatson is a window with spare capacity 0/1/2/3/4/16 and is read back after the "
-            "call, and the mesh returned by the previous call is read again after the next call; inputs of at most 26 points carry "
+            "call, and the mesh returned by the previous call is read again after the next call; inputs of at most 24 points carry "
             "the harness' exact decision of strong general position, re-decided by gp_strongb; non-trivial = at least 4 points",
     "trusted": ["float64 arithmetic of the implementation is exact on the generated inputs by construction (bound "
                 "12*D^4 < 2^53 checked per case by the harness: exactOK) or, for the sliver class, sign-faithful with a "
